@@ -38,6 +38,7 @@ typedef struct fiber_manager {
   fiber_scheduler_t* scheduler;
   fiber_t* volatile done_fiber;
   int id;
+  int in_maintenance;  // non-zero while finishing a context switch: no yielding
   uint64_t yield_count;
   uint64_t spin_count;
   uint64_t signal_spin_count;
